@@ -12,7 +12,7 @@ EXPLANATION = (
     'substitution off. SCOPE-WIDTH: an entry\'s scope field holds every value of the scope counter. R-ERR1/R-ERR2: '
     'duplicate-label and other symbol errors are propagated by every caller. FIND-EXHAUSTIVE: a symbol/macro lookup loop is left early only '
     'through its strcmp match (no entry is skipped by an early stop). ELF-LAYOUT: the symbol table (and the other ELF structures) are written '
-    'with the Elf32/Elf64 field order and widths selected by EI_CLASS. Not decided: scope numbering equality '
+    'with the Elf32/Elf64 field order and widths selected by EI_CLASS. DUP-GLOBAL: with no scope open a second definition of a found name is always rejected. Not decided: scope numbering equality '
     'between the passes for arbitrary programs.')
 
 
@@ -32,5 +32,5 @@ def run(tier, t0):
     e1.floor = 5
     results = [sym.pool_walkers(prog, 8), sym.find_order(prog), sym.defnames(prog), sym.scope_width(prog), e1,
                sym.find_exhaustive(prog, lambda f: f.file in ("core/Symbols.cpp", "core/Macros.cpp"), 2), elf.layout(prog), elf.strtab_pair(prog), elf.patch_width(prog),
-               err.err2(prog, lambda f: f.file in ('core/Symbols.cpp',), table, floor=3), _c02.symset(prog)]
+               err.err2(prog, lambda f: f.file in ('core/Symbols.cpp',), table, floor=3), _c02.symset(prog), sym.dup_global(prog)]
     return report.finish('C11', tier, results, EXPLANATION, [], common.TRUSTED, t0)
